@@ -1,32 +1,39 @@
 (** C29 — property theorems only. *)
 From Coq Require Import List ZArith NArith.
-From C33 Require Import C25.Model C29.Model C29.Proofs C29.Proofs2.
+From C33 Require Import C25.Model C25.Proofs C29.Model C29.Proofs C29.Proofs2 C29.Proofs3.
 Import ListNotations.
 Open Scope Z_scope.
 
-(** Crash consistency (partial: a LevelDB batch is atomic and durable, so a
-    crash keeps a prefix of the log of write units).
+(** Crash consistency (partial: a LevelDB write — batch or point write — is
+    atomic and durable, so a crash keeps a prefix of the log of write units).
 
-    [ops] is any sequence of store / connect / disconnect operations that is
-    valid for the best chain [c0] (a block is stored only while it is not on
-    the chain; a connected block has the next height and is not yet on the
-    chain), started in a durable state [d00] that is consistent with [c0].
+    [U] is any set of blocks in which a hash identifies a block.  [ops] is ANY
+    sequence of store / connect / disconnect operations on blocks of [U],
+    executed as the code does (a store is skipped when the header exists, a
+    connect needs the parent to be the tip and the block's rows to be stored,
+    a disconnect needs the block to be the tip), started in a durable state
+    [d00] that is consistent with the best chain [c0].
     For EVERY number [k] of completed durable writes there is a number [j] of
     operations such that the durable state [replay d00 (firstn k log)]
-    - has last height = length of the chain after the first [j] operations - 1,
-    - maps every height of that chain to its block and no height above it,
-    - holds the rows, the total difficulty (= sum of the work of the block and
-      its ancestors) and the state of every block of that chain, parent-linked,
-    - indexes the transaction of exactly the blocks of that chain, at their
-      heights ([inv]),
+    describes exactly the best chain [c] the node had after its first [j]
+    operations ([inv]):
+    - last height = length c - 1 (none / -1 when c is empty),
+    - every height below length c maps to the block of c at that height, no
+      height at or above it maps to anything,
+    - every block of c has its rows, its transaction indexed at its height,
+      total difficulty = the sum of the work of the block and its ancestors,
+      its state tree present, and its parent is the block below it,
+    - no transaction of a block outside c is indexed,
     and start-up ([recover]: NewBlockStore, InitCache, InitIndexAndBestView)
-    succeeds and reads back exactly that chain. *)
+    does not fail and reads back exactly c. *)
 Theorem C29_crash_consistent_partial :
-  forall (sid : N -> N) (c0 : list block) (d00 : dst) (ops : list op) (k : nat),
-  inv sid (mkP d00 c0) -> ops_valid c0 ops = true ->
+  forall (sid : N -> N) (U : list block),
+  (forall x y, In x U -> In y U -> bid x = bid y -> x = y) ->
+  forall (c0 : list block) (d00 : dst) (ops : list op) (k : nat),
+  inv sid U (mkP d00 c0) -> ops_in U ops ->
   let log := snd (run_ops sid (mkP d00 c0) ops) in
   exists j, (j <= length ops)%nat /\
-    consistent_with sid (replay d00 (firstn k log)) (chain_run c0 (firstn j ops)).
+    consistent_with sid U (replay d00 (firstn k log)) (chain_after sid (mkP d00 c0) ops j).
 Proof. exact crash_consistent. Qed.
 Print Assumptions C29_crash_consistent_partial.
 
@@ -34,54 +41,98 @@ Print Assumptions C29_crash_consistent_partial.
     end in the same best chain as the uninterrupted run, with durable records
     that are again consistent with it. *)
 Theorem C29_resume_same_final_partial :
-  forall (sid : N -> N) (c0 : list block) (d00 : dst) (ops : list op) (k : nat),
-  inv sid (mkP d00 c0) -> ops_valid c0 ops = true ->
+  forall (sid : N -> N) (U : list block),
+  (forall x y, In x U -> In y U -> bid x = bid y -> x = y) ->
+  forall (c0 : list block) (d00 : dst) (ops : list op) (k : nat),
+  inv sid U (mkP d00 c0) -> ops_in U ops ->
   let log := snd (run_ops sid (mkP d00 c0) ops) in
   exists j, (j <= length ops)%nat /\
     let dk := replay d00 (firstn k log) in
-    let cj := chain_run c0 (firstn j ops) in
+    let cj := chain_after sid (mkP d00 c0) ops j in
+    consistent_with sid U dk cj /\
     let send := fst (run_ops sid (mkP dk cj) (skipn j ops)) in
     p_chain send = p_chain (fst (run_ops sid (mkP d00 c0) ops)) /\
-    consistent_with sid (p_d send) (p_chain send).
+    consistent_with sid U (p_d send) (p_chain send).
 Proof. exact resume_same_final. Qed.
 Print Assumptions C29_resume_same_final_partial.
 
 (** The same for a whole node history: empty database, the flag writes of the
-    first start, the genesis block, then any delivery order, with the
-    operations decided by the fork-choice model of C25 ([history_ops]); [k]
-    ranges over every write boundary from the very first write. *)
+    first start, the genesis block [g], then ANY delivery order [order]
+    (duplicates, orphans, side branches, reorganisations), with the operations
+    decided by the fork-choice model of C25 ([history_ops]); [k] ranges over
+    every write boundary from the very first write.  The only hypothesis: among
+    the genesis and the delivered blocks a hash identifies a block. *)
 Theorem C29_history_crash_consistent_partial :
   forall (sid : N -> N) (fin : Z) (g : block) (order : list block) (k : nat),
-  ops_valid [] (history_ops fin g order) = true ->
-  exists j, (j <= length (history_ops fin g order))%nat /\
-    consistent_with sid (replay d0 (firstn k (history_log sid fin g order)))
-                    (chain_run [] (firstn j (history_ops fin g order))).
+  hash_identifies (g :: order) ->
+  let ops := history_ops fin g order in
+  let s0 := mkP (replay d0 (fresh_units d0)) [] in
+  exists j, (j <= length ops)%nat /\
+    consistent_with sid (g :: order) (replay d0 (firstn k (history_log sid fin g order)))
+                    (chain_after sid s0 ops j).
 Proof. exact history_crash_consistent. Qed.
 Print Assumptions C29_history_crash_consistent_partial.
 
 Theorem C29_history_resume_partial :
   forall (sid : N -> N) (fin : Z) (g : block) (order : list block) (k : nat),
-  ops_valid [] (history_ops fin g order) = true ->
+  hash_identifies (g :: order) ->
   (length (fresh_units d0) <= k)%nat ->
   let ops := history_ops fin g order in
+  let s0 := mkP (replay d0 (fresh_units d0)) [] in
   exists j, (j <= length ops)%nat /\
     let dk := replay d0 (firstn k (history_log sid fin g order)) in
-    let cj := chain_run [] (firstn j ops) in
+    let cj := chain_after sid s0 ops j in
+    consistent_with sid (g :: order) dk cj /\
     let send := fst (run_ops sid (mkP dk cj) (skipn j ops)) in
-    p_chain send = p_chain (fst (run_ops sid (mkP (replay d0 (fresh_units d0)) []) ops)) /\
-    consistent_with sid (p_d send) (p_chain send).
+    p_chain send = p_chain (fst (run_ops sid s0 ops)) /\
+    consistent_with sid (g :: order) (p_d send) (p_chain send).
 Proof. exact history_resume. Qed.
 Print Assumptions C29_history_resume_partial.
 
+(** Continued processing by re-delivery, with C25.  [T] is a block tree as in
+    C25_converges (root [g] at height 0, distinct hashes, every block connected
+    to [g], non-negative work), [order] any delivery sequence containing every
+    block of [T], [H] the unique heaviest block, at least 12 above the
+    finalized height.  Crash after ANY number [k] of durable writes; the node
+    restarts with the recovered chain (consistent, as above) and an index
+    rebuilt from that chain only ([restart_state]); the whole order is
+    delivered again: the fork-choice model ends with the same tip and best
+    chain as the uninterrupted run. *)
+Theorem C29_redeliver_same_final_partial :
+  forall (fin : Z) (g : block) (T : list block),
+  In g T -> NoDup (map bid T) ->
+  (forall b, In b T -> exists l td, path g T b l td) ->
+  (forall b, In b T -> 0 <= bdiff b) ->
+  bht g = 0 ->
+  forall (sid : N -> N) (order : list block) (k : nat) (H : block) (lH : list N) (tdH : Z),
+  (forall b, In b order -> In b T) ->
+  (forall b, In b T -> b = g \/ In b order) ->
+  path g T H lH tdH ->
+  (forall x l td, path g T x l td -> x <> H -> td < tdH) ->
+  fin + margin <= bht H ->
+  let ops := history_ops fin g order in
+  let s0 := mkP (replay d0 (fresh_units d0)) [] in
+  exists j, (j <= length ops)%nat /\
+    let dk := replay d0 (firstn k (history_log sid fin g order)) in
+    let cj := chain_after sid s0 ops j in
+    consistent_with sid (g :: order) dk cj /\
+    (cj <> [] ->
+     let s := fold_left (step fin) order (restart_state cj) in
+     tip s = tip (run fin g order) /\ main s = main (run fin g order)).
+Proof. exact redeliver_same_final. Qed.
+Print Assumptions C29_redeliver_same_final_partial.
+
 (** Non-vacuity: a trunk of 13 blocks and a branch of 3 from height 11 that
-    overtakes it.  The operation sequence the fork-choice model produces is
-    valid, contains 2 disconnects, writes 55 units and ends on the branch. *)
-Theorem C29_example_history_valid :
-  ops_valid [] ex_ops = true /\ length (filter is_disc ex_ops) = 2%nat /\ length ex_log = 55%nat /\
+    overtakes it.  Hashes identify the blocks; the operation sequence the
+    fork-choice model produces contains 2 disconnects, writes 55 units and
+    ends on the branch. *)
+Theorem C29_example_history :
+  hash_identifies (ex_g :: ex_order) /\
+  length (filter is_disc ex_ops) = 2%nat /\ length ex_log = 55%nat /\
   map bid (p_chain (fst (run_ops ex_sid (mkP (replay d0 (fresh_units d0)) []) ex_ops)))
   = [16; 15; 14; 11; 10; 9; 8; 7; 6; 5; 4; 3; 2; 1; 0]%N.
 Proof. exact example_valid. Qed.
-Print Assumptions C29_example_history_valid.
+Print Assumptions C29_example_history.
 
 (** The single batch is necessary: the same log with the last-height record
     written on its own before the rest of each connect batch ends in the same
